@@ -26,7 +26,9 @@ func TestSignatures(t *testing.T) {
 		return Event{Actor: "platform", Kind: "platform", Call: call, Extra: x}
 	}
 	hit := func(p string) Event { return Event{Actor: "hook", Kind: "hook.hit", Call: p} }
-	iss := func(actor, proc, call string) Event { return Event{Actor: actor, Proc: proc, Kind: "issue", Call: call} }
+	iss := func(actor, proc, call string) Event {
+		return Event{Actor: actor, Proc: proc, Kind: "issue", Call: call}
+	}
 	ret := func(actor, proc, call string, status int, err string) Event {
 		return Event{Actor: actor, Proc: proc, Kind: "return", Call: call, Status: status, Err: err}
 	}
